@@ -1,7 +1,7 @@
 """T00 -- engine self-test: tiny functions with contracts that must verify (ok_*) or be refuted (bad_*).
 Not a property of the repository; run by pyvc.selftest to validate the verifier itself."""
-from pyvc.api import Module, Int, Nat, Bool, Str, Opt, ListOf, FixedList, OneOf, Inst
-from contracts.common import implies, iff, forall_range, exists_range
+from pyvc.api import Module, Int, Nat, Bool, Str, Opt, ListOf, FixedList, OneOf, Inst, MapOf
+from contracts.common import implies, iff, forall_range, exists_range, prefix_fold
 
 M = Module('T00')
 P = 'contracts.T00_engine'
@@ -146,6 +146,54 @@ M.contract(P + ':ok_floor_div', params=dict(a=Int, b=Int),
            ensures={'euclid': lambda a, b, result: result[0] * b + result[1] == a,
                     'sign-of-remainder': lambda b, result: (0 <= result[1] < b) if b > 0 else (b < result[1] <= 0)},
            raises_only=())
+
+
+# ---- symbolic maps (dict view), frame/havoc of mutable arguments, ghost history function
+
+def ok_map_ops(d, k, v):
+    """dict operations on a map of unbounded contents"""
+    had = k in d
+    before = d.get(k, '')
+    d[k] = v
+    e = dict(d)
+    removed = e.pop(k)
+    if 'x' in e:
+        del e['x']
+    return had, before, removed, e
+
+
+M.contract(P + ':ok_map_ops', params=dict(d=MapOf(Str, Str), k=Str, v=Str), ghosts=dict(q=Str), modifies=('d',),
+           old=lambda d: dict(d),
+           ensures={'d updated at k only': lambda d, k, v, q, old:
+           d[k] == v and iff(q in d, q == k or q in old) and (q == k or q not in old or d[q] == old[q]),
+                    'results': lambda k, v, result, old:
+                    iff(result[0], k in old) and result[1] == (old[k] if k in old else '') and result[2] == v,
+                    'copy is independent': lambda d, k, q, result: k not in result[3] and k in d and 'x' not in result[3]
+                                                                   and iff(q in result[3], q in d and q != k and q != 'x')},
+           raises_only=())
+
+
+def ok_put_all(d, ks):
+    for k in ks:
+        _put(d, k)
+
+
+def _put(d, k):
+    d[k] = k + '!'
+
+
+def _put_step(d, k):
+    r = dict(d)
+    r[k] = k + '!'
+    return r
+
+
+M.contract(P + ':_put', params=dict(d=MapOf(Str, Str), k=Str), modifies=('d',), old=lambda d: dict(d),
+           ensures={'put': lambda d, k, old: d == _put_step(old, k)}, raises_only=())
+M.contract(P + ':ok_put_all', params=dict(d=MapOf(Str, Str), ks=ListOf(Str)), modifies=('d',), old=lambda d: dict(d),
+           ensures={'fold': lambda d, ks, old: d == prefix_fold(_put_step, old, ks, len(ks))}, raises_only=())
+M.loop(P + ':ok_put_all', 0, invariant=lambda _i, d, ks, old: d == prefix_fold(_put_step, old, ks, _i),
+       modifies=dict(k='local', d='in-place'))
 
 EXPECTED_REFUTED = {
     P + ':bad_first_line : ensures[prefix-without-newline]',
